@@ -37,21 +37,29 @@ else:
         broken.append(("Props/C16.v", out[-3000:]))
 
 # ---------------------------------------------------------------- 2. implementation runs (parallel processes)
+ck.log("theorems re-checked (%d obligations)" % ck.obligations)
 exe, out = ck.go_build("./cmd/hc16")
 if exe is None:
     ck.violation("harness-build", "harness does not build against the repository", {"log": out[-3000:]}, no_input=True)
     ck.finish({"evaluations": 1, "distinct_nontrivial": 0, "rule": "n/a", "samples": ["harness build failed"]})
 
+ck.log("harness built")
 work = ck.mkscratch()
 thorough = ck.thorough()
-vfrac = "100" if thorough else "30"
+vfrac = "100" if thorough else "25"
 jobs = [
-    ("orig", ["-mode", "corpus", "-variants", "orig", "-repopkgs", ""]),
+    ("origA", ["-mode", "corpus", "-variants", "orig", "-repopkgs", "", "-vers", "go1.0"]),
+    ("origB", ["-mode", "corpus", "-variants", "orig", "-repopkgs", "", "-vers", "!go1.0"]),
     ("var1", ["-mode", "corpus", "-variants", "crlf,parens", "-vfrac", vfrac, "-repopkgs", ""]),
     ("var2", ["-mode", "corpus", "-variants", "comments,imports", "-vfrac", vfrac,
               "-repopkgs", "./..." if thorough else "./pattern,./analysis/edit,./analysis/report,./go/ast/astutil"]),
     ("beh", ["-mode", "behave", "-n", "12" if thorough else "3"]),
 ]
+
+# developer knob (mutation testing only; the registered commands never set it): C16_ONLY=beh,origA runs a subset
+if os.environ.get("C16_ONLY"):
+    jobs = [j for j in jobs if j[0] in os.environ["C16_ONLY"].split(",")]
+    ck.notes.append("C16_ONLY=%s: partial run" % os.environ["C16_ONLY"])
 
 def run_job(j):
     name, args = j
@@ -63,7 +71,7 @@ def run_job(j):
         return name, None, o
     return name, json.load(open(res)), o
 
-with ThreadPoolExecutor(max_workers=4) as ex:
+with ThreadPoolExecutor(max_workers=5) as ex:
     results = list(ex.map(run_job, jobs))
 for name, data, log in results:
     if data is None:
